@@ -92,4 +92,14 @@ CHECKS = {
         ],
         assumptions=SIM_ASSUMPTIONS,
     ),
+    "C05": dict(
+        level="model_checking",
+        rule="every triple (observed, lastApplied, desired), each side absent or drawn from a complete finite universe, enumerated exhaustively per family: F1 nested maps/scalars/nulls (quick 68^3, thorough 404^3 triples), F2 plain lists and list-maps under each of the 7 conventional merge keys and under none (quick up to 75^3, thorough 237^3 per key), "
+             "F3 items carrying two conventional keys (21 key pairs), F4 ApplyUpdate with system metadata/status/last-applied wrapping; non-trivial = in the statement's domain with non-empty observed and desired",
+        units=[
+            dict(pkg=COMMON, test="TestVerifC05", shards=dict(quick=16, thorough=16), budget=dict(quick=600, thorough=3000)),
+        ],
+        assumptions=["reference = the documented convention (docs/src/api/apply.md) with the merge-key precedence list of apply.go; null-valued desired/lastApplied fields are checked for purity, totality and idempotence only ('null = no opinion')",
+                     "randomly generated / coverage-guided fuzzed triples are outside this technique family and not claimed"],
+    ),
 }
